@@ -174,6 +174,13 @@ HISTORY = {
     "C17-12": ("caught (round 8)", ""),
     "C19-12": ("caught (round 8)", ""),
     "C20-12": ("caught (round 8)", ""),
+    "C01-13": ("missed (round 9)", "C01 / C02 lookback-from-config `window-not-capped`: the configured max_past_epochs may be raised to a default, never capped by a constant (`min` / `clamp` with a constant operand on its data path)"),
+    "C02-13": ("caught by C01 / C07 only (round 9)", "C02 now runs the rollback-arm clause it used to defer to C01 (invalidation threshold = rollback target epoch)"),
+    "C05-13": ("caught (round 9)", ""),
+    "C07-13": ("caught by C02 only (round 9)", "C07 now runs C02's own-echo transition table (only Created / Retryable take the confirming arm)"),
+    "C09-13": ("caught (round 9)", ""),
+    "C13-13": ("caught (round 9)", ""),
+    "C14-13": ("caught (round 9)", ""),
 }
 rows = ["| id | change (needs) | first | now caught by | strengthened |", "|----|----------------|-------|---------------|--------------|"]
 sd = os.path.join(VERIF, "seeded")
